@@ -18,17 +18,24 @@ fn value(id: u64) -> TableEntry {
     let from = Square::try_from((id % 64) as u8).unwrap();
     let to = Square::try_from(((id / 64) % 64) as u8).unwrap();
     let piece = [Piece::Pawn, Piece::Knight, Piece::Bishop, Piece::Rook, Piece::Queen, Piece::King][((id / 4096) % 6) as usize];
+    assert!(id < 1 << 30, "ids of one history stay below 2^30");
+    // the ply fields look like a search's for three values in four (remaining depth 0, 1 or 2 at a small ply: an
+    // implementation may treat shallow and deep entries differently) and carry the whole id for the fourth
+    let (depth, max_depth) = if id % 4 == 0 { ((id >> 20) as usize, id as usize) } else { (((id / 4) % 40) as usize, ((id / 4) % 40 + id % 4 - 1) as usize) };
     TableEntry {
         performed_move: Move::by_moving(PieceIndex::new(if id % 2 == 0 { Color::White } else { Color::Black }, piece), from, to),
-        evaluation: (id & 0x3fff_ffff) as i32,
-        depth: (id >> 30) as usize,
-        max_depth: id as usize,
+        evaluation: id as i32,
+        depth,
+        max_depth,
         kind: (id % 3) as u8,
     }
 }
 
 fn id_of(e: &TableEntry) -> Option<u64> {
-    let id = e.max_depth as u64;
+    if e.evaluation < 0 {
+        return None;
+    }
+    let id = e.evaluation as u64;
     if *e == value(id) {
         Some(id)
     } else {
